@@ -720,7 +720,8 @@ PyObject* py_slic(PyObject* self, PyObject* args) {
         return NULL;
     }
     try {
-        if (max_iters < 0) max_iters = 128;
+        // without at least one assignment pass, no pixel has a label
+        if (max_iters <= 0) max_iters = 128;
         const int n = slic(numpy::aligned_array<npy_float32>(array), numpy::aligned_array<int>(labels), S, m, max_iters);
         return PyLong_FromLong(n);
     }
